@@ -65,3 +65,15 @@ instance (order : List AddrKind) : Decidable (OrderOK order) := by
   unfold OrderOK; infer_instance
 
 end DaliVerif.Spec
+
+namespace DaliVerif.Addr
+
+/-- the 7-bit address field of an address object: `0AAAAAA` short, `100GGGG` /
+`10GGGGG` group, `1111110` broadcast unaddressed, `1111111` broadcast -/
+def addrByte : Addr → Nat
+  | .gearBroadcast | .deviceBroadcast => 127
+  | .gearUnaddressed | .deviceUnaddressed => 126
+  | .gearGroup g | .deviceGroup g => 64 + g
+  | .gearShort s | .deviceShort s => s
+
+end DaliVerif.Addr
